@@ -18,6 +18,15 @@ def callers_of(F, regex):
                 nm = t.get('resolved') or t['fn']
                 if r.search(nm) or r.search(t['fn']):
                     out.setdefault(name, []).append(b['line'])
+            # a function named as a value (passed as a callback) counts as called from here
+            ops = list(t.get('args') or []) if t['k'] == 'call' else []
+            for s_ in b['stmts']:
+                if s_['k'] == 'assign':
+                    rv = s_['rv']
+                    ops += [o_ for o_ in [rv.get('op'), rv.get('a'), rv.get('b')] + list(rv.get('ops') or []) if isinstance(o_, dict)]
+            for o_ in ops:
+                if o_.get('k') == 'const' and o_.get('fn') and r.search(o_['fn']):
+                    out.setdefault(name, []).append(b['line'])
     return out
 
 
@@ -439,7 +448,9 @@ def _w13_w14(ctx):
         ctx.add('W13', 'T-TYPE', adt, okc, '%s (can reach the direct-commit view path) is not Clone' % short(adt) if okc else
                 '%s can reach the direct-commit view path but implements Clone: two handles could commit one stream position by plain store' % short(adt),
                 where='%s:%d' % (F.adts[adt]['file'], F.adts[adt]['line']) if adt in F.adts else None, sub=short(adt) + '|noclone')
-    # construction sites of Uni types
+    # construction sites of Uni types (a helper that does not exist in the reference tree is analysed as part of the
+    # functions that call it)
+    built_by = {}
     for name, f in F.fns.items():
         built = set()
         for b in f['blocks']:
@@ -450,6 +461,10 @@ def _w13_w14(ctx):
                     built.add(s['rv']['adt'])
         if not built or f.get('from_expansion'):
             continue
+        for sub_ in ctx.subjects_for(name):
+            built_by.setdefault(sub_, set()).update(built)
+    for name, built in sorted(built_by.items()):
+        f = F.fns[name]
         g = ctx.graph(name, 'MPMC')
         x = g.x
         single_edges = _eq_const_edges(g, x, lambda a: a.on('ReaderMeta.num_consumers') and a.op == 'load', 1)
